@@ -42,6 +42,16 @@ class ScriptedInput:
         self.eof_seen = False
         self.delivered = bytearray()
 
+    def rearm(self, chunks):
+        """A server that keeps one input object per connection: the same object now delivers the next request's body."""
+        self.__init__(chunks)
+
+    def seek(self, pos):
+        """Only seek(0) - what a middleware does that has read the body and hands the environ on."""
+        if pos != 0:
+            raise OSError("only rewinding is supported")
+        self.__init__(self.chunks)
+
     def read(self, size=-1):
         self.reads += 1
         if self.fail_at is not None and not self.failed and self.reads - 1 == self.fail_at:
